@@ -350,7 +350,7 @@ def rule_fold_closure(ctx):
                 why = "statement text"
             ctx.ob("C02.b", f"{qual}: unquoted identifier from {why} `{norm(this)[:50]}` is upper case", ok, m.loc(c))
             if not ok:
-                ctx.violation("C02.b", "transforms", qual, c, m.loc(c),
+                ctx.violation("C02.b", "transforms", qual, "unquoted Identifier built from unfolded statement text", m.loc(c),
                               f"an unquoted identifier is built from `{norm(this)}` after the folding stage has run, without upper-casing it: "
                               f"the name is reported/resolved in the user's spelling (`identifier('lower_t')` creates `lower_t`)")
     ctx.floor("Identifier construction sites", n, 3)
